@@ -84,7 +84,10 @@ CLAIMS = {
             "§3 R-SIBSYM; §4 C19"),
     "C28": ("who-gates rule: every is_linux_kernel() value that selects ksymtab filtering is conjoined with, or "
             "data-dependent (through parameters, all call sites) on, load_in_linux_kernel_mode",
-            "no ksymtab-based restriction of the interface is applied when the kernel mode option is off",
+            "no ksymtab-based restriction of the interface is applied when the kernel mode option is off; "
+            "R-KSYMAPPLY: in symtab::load_ the loop that applies the collected __ksymtab_ names lies on every path to "
+            "`return true` (must-pass-through) and every set_is_in_ksymtab(true) is control-dependent on membership in "
+            "the collected set",
             "which symbols carry a ksymtab marker (runtime data)",
             "§3 R-KMODE; §4 C28"),
     "C05": ("constant evaluation of the category masks + categoriser tables (AST) and exit-status abstract "
